@@ -5,7 +5,7 @@
 (***************************************************************************)
 EXTENDS Indenter, TLC
 CONSTANTS MaxLen, MaxInd
-Toks == {[k |-> "NL", ind |-> n] : n \in 0..MaxInd} \cup {[k |-> x, ind |-> 0] : x \in {"OPEN", "CLOSE", "OTHER"}}
+Toks == {[k |-> "NL", ind |-> n] : n \in 0..MaxInd} \cup {[k |-> x, ind |-> 0] : x \in {"OPEN", "CLOSE", "OTHER", "NLC"}}
 VARIABLES fed, st
 vars == <<fed, st>>
 Init == fed = <<>> /\ st = Reset
@@ -22,10 +22,14 @@ StackLaw == /\ st.lv[1] = 0 /\ \A i \in 1..(Len(st.lv) - 1) : st.lv[i] < st.lv[i
 Balanced == st.status = "done" => Count(st.out, "INDENT") = Count(st.out, "DEDENT")
 \* INDENT/DEDENT only directly after an emitted NL (or DEDENTs at the very end)
 OnlyAfterNL == \A i \in DOMAIN st.out : st.out[i] = "INDENT" => (i > 1 /\ st.out[i - 1] = "NL")
+\* a newline token without indentation to read (comment tail) never moves the level stack
+CommentNeutral ==
+  (st.status = "run" /\ fed # <<>> /\ fed[Len(fed)].k = "NLC") =>
+     LET before == FeedAll(Reset, SubSeq(fed, 1, Len(fed) - 1), 1) IN st.lv = before.lv /\ st.status = before.status
 \* nothing is emitted for newlines inside brackets, everything else passes through in order
 PassThrough ==
   LET kept == SelectSeq(st.out, LAMBDA x : x \in {"OPEN", "CLOSE", "OTHER"})
-      src == SelectSeq(fed, LAMBDA t : t.k # "NL")
+      src == SelectSeq(fed, LAMBDA t : t.k \notin {"NL", "NLC"})
   IN kept = [i \in DOMAIN src |-> src[i].k] \/ st.status = "CloseUnderflow"
 \* DedentError exactly on a dedent (outside brackets) to a column that is not an open level
 ErrorLaw ==
